@@ -291,7 +291,7 @@ Theorem c09_code_limiters_refine_model : forall c o,
 Proof. intros c o. exact (conj (tie_c_step c o) (tie_c_reads c)). Qed.
 Print Assumptions c09_code_limiters_refine_model.
 
-(** The limiters AS TRANSLATED never over-admit: created empty with a limit >= 1, FixedConcurrency and
+(** The limiters AS TRANSLATED never exceed their limit: created empty with a limit >= 1, FixedConcurrency and
     WeightedConcurrency keep 0 <= in use <= limit for EVERY sequence of operations with any weights,
     and the limit never changes. *)
 Theorem c09_code_limiter_static_bound : forall limit ops, 1 <= limit ->
